@@ -135,6 +135,17 @@ var families = []family{
 	}},
 	{"long-literal", func(n int) string { return "SELECT '" + strings.Repeat("x", n*8) + "' FROM t" }},
 	{"long-identifier", func(n int) string { return "SELECT " + strings.Repeat("y", n*8) + " FROM t" }},
+	// the long-lexeme families with multi-byte content (a scan that is restarted at every multi-byte character)
+	{"long-literal-multibyte", func(n int) string { return "SELECT '" + strings.Repeat("\u4f60\u597d \u00e9t\u00e9 ", n*2) + "' FROM t" }},
+	{"long-quoted-identifier-multibyte", func(n int) string { return "SELECT \"" + strings.Repeat("\u00fc\u00f1\u00ef ", n*2) + "\" FROM t" }},
+	{"long-comment-multibyte", func(n int) string { return "SELECT /* " + strings.Repeat("\u4e16\u754c \u00e0 ", n*2) + "*/ 1 -- " + strings.Repeat("\u00e9", n*4) }},
+	{"long-dollar-body-multibyte", func(n int) string { return "SELECT $$" + strings.Repeat("\u4f60 \u00e9 ", n*2) + "$$" }},
+	{"typographic-quoted-literals", func(n int) string {
+		return "SELECT " + join(n, func(i int) string { return "\u2018v\u2019" }, ", ") + " FROM t"
+	}},
+	{"multibyte-literals", func(n int) string {
+		return "SELECT " + join(n, func(i int) string { return "'\u00e9\u4f60'" }, ", ") + " FROM t"
+	}},
 	{"joins", func(n int) string {
 		return "SELECT t0.a FROM t0 " + join(n/4+1, func(i int) string { return fmt.Sprintf("JOIN t%d ON t%d.k = t0.k", i+1, i+1) }, " ")
 	}},
